@@ -373,6 +373,14 @@ def gen_net(rng, idx, profile):
             new = b.unary("LEAKY_RELU", cur)
             if rng.random() < 0.4:
                 _same_quant(b, new, cur)
+            # a NEGATIVE alpha on every third-or-so operator (own generator, a function of (index, step): the random stream of the
+            # networks is what it was). int8 / uint8: table lookup, must stay bit-exact. int16: lowered to MIN, int32 MUL by the
+            # negative quantised multiplier, RELU, ADD (C06 finding int16-lrelu-negative-alpha-negative-ofm-scale) - or, on a tree
+            # with repair C16-20 (constraint_alpha_valid), left on the CPU.
+            r2 = random.Random((idx * 7919 + step) * 31 + 5)
+            if r2.random() < 0.35:
+                b.net.ops[-1].opts = ("LeakyReluOptions", dict(Alpha=float(r2.choice([-0.5, -2.0, -0.125, -1.0, -0.999, -8.0]))))
+                b.net.desc.append(f"alpha={b.net.ops[-1].opts[1]['Alpha']}")
         elif kind == "quantize":
             new = b.quantize(cur)
         elif kind == "sqdiff" and xt.dtype != "uint8":
@@ -1148,7 +1156,7 @@ def main():
                                                               "mean_unit_axes", "concat_batch_axis",
                                                               "resize_reshape", "mean_reshape", "widepool_reshape",
                                                               "transpose_relu", "sqdiff_reshape", "dilation3_uint8", "shared_dilation3", "shared_tconv",
-                                                              "prelu_reshape", "transpose_lut_mul", "protected_reshape_inplace")]
+                                                              "prelu_reshape", "transpose_lut_mul", "protected_reshape_inplace", "lrelu16_negative_alpha")]
     jobs += [(ck.seed, i, PROFILES[i % len(PROFILES)], k_inputs) for i in range(n)]
     ctx = multiprocessing.get_context("fork")
     t0 = time.time()
@@ -1209,6 +1217,9 @@ def main():
         for kd in o.get("out_kinds", []):
             if kd != "NPU":
                 ck.count("cpu_op_" + kd)
+        if any(str(x).startswith("alpha=-") for x in (o["desc"].get("desc") or [])) or o["profile"] == "known_lrelu16_negative_alpha":
+            # LEAKY_RELU with a negative alpha: table lookup (8 bit), MIN / int32 MUL / RELU / ADD or - with repair C16-20 - the CPU (16 bit)
+            ck.count("lrelu_negative_alpha_%s_%s" % (o["dtype"], "cpu" if "LEAKY_RELU" in (o.get("out_kinds") or []) else "npu"))
         classes = re.findall(r"cls=(\d)", ans)
         for c in classes:
             ck.count("output_class_" + {"0": "exact", "1": "within_one", "2": "not_judged"}[c])
